@@ -105,6 +105,12 @@ def workloads(ctx: core.Ctx) -> list[dict]:
         {"name": "network", "keys": keys, "sessions": [
             {"ops": [["net_attest", "n1"], ["blob", "i1", 300], ["net_garbage", "n2"], ["blob", "i2", 300],
                      ["net_subject", "n3"], ["content", "empty", 0]], "end": "abandon"}]},
+        # two connections of one process to an existing wallet file (the pseudonyms of a CommunicationManager share their
+        # working directory), writing in turn; never closed
+        {"name": "two-connections", "keys": keys, "double": True, "sessions": [
+            {"ops": [["blob", "w0", 300]], "end": "close", "setup": True},
+            {"ops": [["blob", "a1", 300], ["blob", "a2", 300], ["blob2", "b1", 300], ["blob", "a3", 300],
+                     ["blob2", "b2", 300], ["blob2", "b3", 300]], "end": "abandon"}]},
         # wallet rows written by the real AttestationCommunity.on_attestation_complete with an application completion
         # callback that returns / raises, each followed by identity-database traffic only; never closed
         {"name": "callbacks", "keys": keys, "sessions": [
